@@ -139,9 +139,12 @@ class CommHandler:
             _bytes = self._prev_read
 
             while len(_bytes) < self._parse.frame.hdr_len:
-                _bytes += self._intf.read()
-                if not _bytes:
+                rdata = self._intf.read()
+                if not rdata:
+                    # nothing more to read now - keep what we have
+                    self._prev_read = _bytes
                     return None, None
+                _bytes += rdata
 
             # find hdr candidate
             i = self._parse.frame.hdr_find(data=_bytes)
